@@ -260,8 +260,8 @@ Print Assumptions C01_sign_object_consume_is_functional.
 (* ---- the COSE_Sign entries the object model installs on WithSign are the entries the SOURCE's loop over the signers builds
    (regenerated on every run, Gen/LookupGen.cose_SignMessage_WithSign_loop, translator T16), each held with its protected
    map and that map's encoding: so the refinement theorems above speak about what the code's loop produces *)
-Theorem C01_sign_object_entries_are_the_source : forall ps ext pb payload, Forall signer_buckets_encodable ps ->
+Theorem C01_sign_object_entries_are_the_source : forall ps ext pb payload,
   MsgObj.sign_entries ps pb ext payload
   = do l <- cose_SignMessage_WithSign_loop ps ext pb payload; Ok (map sigent_of_sigout l).
-Proof. exact obj_sign_entries_is_source. Qed.
+Proof. exact obj_sign_entries_is_source_total. Qed.
 Print Assumptions C01_sign_object_entries_are_the_source.
